@@ -1,6 +1,6 @@
 (* C12/Props.v — property theorems only (oracle rounds: one price per round, only with a super-majority, no gaps). *)
 From Coq Require Import List String Bool ZArith Lia Sorting.Sorted Sorting.Permutation.
-From Exo Require Import Base.Util Oracle.Model Oracle.Lemmas C12.Proofs C12.Lift C12.Agree C12.NoGap C12.Retention C13.Budget C12.NoGapMulti C12.NoGapClean C12.Final.
+From Exo Require Import Base.Util Oracle.Model Oracle.Lemmas C12.Proofs C12.Lift C12.Agree C12.NoGap C12.Retention C13.Budget C12.NoGapMulti C12.NoGapClean C12.RetentionRun C12.Final.
 Import ListNotations.
 Local Open Scope Z_scope.
 
@@ -137,6 +137,20 @@ Theorem C12_retention_partial : forall p s tok x,
 Proof. exact C12_retention_partial_l. Qed.
 Print Assumptions C12_retention_partial.
 
+(* ... and over ALL histories (any txs, blocks, validator-set updates): starting from a store whose price lists are
+   inside their windows (e.g. the empty store), every token keeps at most MaxSizePrices rounds - as long as no
+   NextRoundID reaches 2^64 along the run (small_run; it is a uint64 in the code) *)
+Theorem C12_retention : forall p ops st tok,
+  1 <= p_max_size p < two64 -> all_window p (st_store st) -> small_run p st ops ->
+  zlen (tp_list (get_tp (st_store (run p st ops)) tok)) <= p_max_size p.
+Proof. exact retention_run. Qed.
+Print Assumptions C12_retention.
+
+Example ex_all_window_empty : forall p m, all_window p (st_store (mkState (mkStore [] []) m 0)).
+Proof.
+  intros p m tok. unfold get_tp. simpl. split; [exact I|]. split; [exact I | intros k x []].
+Qed.
+
 Example ex_window : tp_window (mkParams 3 2 3 5 2 [] [])
                               (mkTP (Some 5) [(3, mkPtr 3 (Some 7) 0 0); (4, mkPtr 4 (Some 8) 0 0)]).
 Proof.
@@ -251,8 +265,9 @@ Qed.
 Print Assumptions C12_no_gap_refuted.
 
 (* the hypothesis Interval >= 2*MaxNonce (Params.Validate) is needed: with Interval 2 and MaxNonce 3 a new round is
-   opened before the previous one was sealed, without any transaction at all. (Params with such an interval can be
-   stored: the token-registration path does not validate - not modelled here.) *)
+   opened before the previous one was sealed, without any transaction at all. (The token-registration path used to
+   store such an interval without Params.Validate; repaired by fix-c12-registration-validate.patch, regression scenario
+   dir-C12-registration-validates-interval.) *)
 Theorem C12_no_gap_needs_valid_interval_refuted :
   let p := mkParams 3 2 3 5 100 [mkFeeder 1 1 20 2 1 0] [(1, 8)] in
   let f := mkFeeder 1 1 20 2 1 0 in
